@@ -194,6 +194,8 @@ struct Inner {
     hot: Hot,
     tree: Mutex<Tree>,
     sender: Mutex<Option<EventSender>>,
+    /// batches for which `send_multiple` reported another number of events than it was given
+    miscounted: AtomicU64,
     log: Mutex<Vec<ReadEv>>,
     log_on: AtomicBool,
     faults: Mutex<Faults>,
@@ -229,6 +231,7 @@ impl Mem {
             hot,
             tree: Mutex::new(Tree::default()),
             sender: Mutex::new(None),
+            miscounted: AtomicU64::new(0),
             log: Mutex::new(Vec::new()),
             log_on: AtomicBool::new(true),
             faults: Mutex::new(Faults::default()),
@@ -371,12 +374,21 @@ impl Mem {
         match &*g {
             Some(s) => {
                 // every other batch goes through an iterator that gives no upper size bound
-                let ok = if self.0.sent.load(SeqCst) % 2 == 0 {
+                let n = es.len();
+                let r = if self.0.sent.load(SeqCst) % 2 == 0 {
                     let mut it = es.into_iter();
-                    s.send_multiple(std::iter::from_fn(move || it.next())).is_ok()
+                    s.send_multiple(std::iter::from_fn(move || it.next()))
                 } else {
-                    s.send_multiple(es).is_ok()
+                    s.send_multiple(es)
                 };
+                // "If successful, this function returns the number of events sent"
+                if let Ok(k) = r {
+                    if k != n {
+                        self.0.miscounted.fetch_add(1, SeqCst);
+                        return false;
+                    }
+                }
+                let ok = r.is_ok();
                 if ok {
                     self.0.sent.fetch_add(1, SeqCst);
                 }
@@ -384,6 +396,11 @@ impl Mem {
             }
             None => false,
         }
+    }
+
+    /// Number of batches whose `send_multiple` reported a wrong event count.
+    pub fn miscounted(&self) -> u64 {
+        self.0.miscounted.load(SeqCst)
     }
 
     pub fn notify_file(&self, id: &str, ext: &str) -> bool {
@@ -565,6 +582,8 @@ pub struct Faulty<S> {
     pub inner: S,
     deny_dirs: Mutex<BTreeSet<String>>,
     deny_files: Mutex<BTreeSet<(String, String)>>,
+    /// (directory id, reads still allowed before the one that fails)
+    deny_dir_nth: Mutex<Option<(String, usize)>>,
     pub denied: AtomicUsize,
 }
 
@@ -574,8 +593,13 @@ impl<S> Faulty<S> {
             inner,
             deny_dirs: Mutex::new(BTreeSet::new()),
             deny_files: Mutex::new(BTreeSet::new()),
+            deny_dir_nth: Mutex::new(None),
             denied: AtomicUsize::new(0),
         }
+    }
+    /// Only the `n`-th (0-based) `read_dir` of `id` from now on fails.
+    pub fn deny_dir_read(&self, id: &str, n: usize) {
+        *lock(&self.deny_dir_nth) = Some((id.to_string(), n));
     }
     pub fn deny_dir(&self, id: &str) {
         lock(&self.deny_dirs).insert(id.to_string());
@@ -586,6 +610,7 @@ impl<S> Faulty<S> {
     pub fn clear(&self) {
         lock(&self.deny_dirs).clear();
         lock(&self.deny_files).clear();
+        *lock(&self.deny_dir_nth) = None;
     }
 }
 
@@ -601,6 +626,19 @@ impl<S: Source> Source for Faulty<S> {
         if lock(&self.deny_dirs).contains(id) {
             self.denied.fetch_add(1, SeqCst);
             return Err(io::Error::new(io::ErrorKind::PermissionDenied, "vh: denied"));
+        }
+        {
+            let mut g = lock(&self.deny_dir_nth);
+            if let Some((d, n)) = g.as_mut() {
+                if d == id {
+                    if *n == 0 {
+                        *g = None;
+                        self.denied.fetch_add(1, SeqCst);
+                        return Err(io::Error::new(io::ErrorKind::PermissionDenied, "vh: denied (this read only)"));
+                    }
+                    *n -= 1;
+                }
+            }
         }
         self.inner.read_dir(id, f)
     }
